@@ -8,12 +8,13 @@ Workload (seeded, stratified; every case is generated from gen.rng_for(seed, 2, 
           the scalar maps pixel_coordinates_2d_from / scaled_coordinates_2d_from /
           scaled_coordinate_2d_to_scaled_at_pixel_centre_from on pixel centres and interior points, the grid maps
           grid_pixel_centres_2d_from / grid_pixel_indexes_2d_from on k random interior points per pixel + one
-          near-edge and one near-corner point per pixel (distance margin..1e4*margin from the pixel boundary,
-          margin 1e-6 quick / 1e-8 thorough), and both compositions of grid_pixels_2d_from / grid_scaled_2d_from.
+          near-edge and one near-corner point per pixel (distance 1e-8 .. 1e-4 pixel from the pixel boundary,
+          i.e. >= 10x outside the tie band), and both compositions of grid_pixels_2d_from / grid_scaled_2d_from.
   ctor  - the five constructors circular / circular_annular / circular_anti_annular / elliptical /
           elliptical_annular on non-square shapes with anisotropic scales, a non-zero mask origin (must not change
           the booleans), centres inside and outside the frame, random radii and *critical* radii placed
-          margin*max(1,r) on either side of the radial measure of a randomly chosen pixel.
+          1e-8..1e-5 * max(1,r) on either side of the radial measure r of a randomly chosen pixel (10 % exactly on
+          it: these pixels must come out as don't-care).
   dim1  - Grid1D.from_mask / Grid1D.uniform / Mask1D.geometry.extent.
 Oracle: the closed formulas of the statement (harness/ref.py: centre y = o_y + ((H-1)/2 - i) s_y, x = o_x +
 (j - (W-1)/2) s_x; extent = union of the pixel squares; index = the pixel whose square contains the point, flat
@@ -25,8 +26,24 @@ points are placed exactly on pixel boundaries on purpose to exercise that path.
 Contracts (icontract) on mask_2d_util.mask_2d_{circular,circular_annular,circular_anti_annular,elliptical,
 elliptical_annular}_from and on grid_2d_util.grid_2d_slim_via_mask_from check every internal call as well.
 
-Validated against (tools/mutant.py; every mutant keeps the repository suite green, all caught by the quick tier):
-  see the list at the end of this docstring (VALIDATED).
+Validated against (tools/mutant.py, seed 0). Suite stays green (699/699) and the quick tier reports VIOLATION:
+  * circular radius 2 % too large only when H != W                         -> ctor.circular + contract
+  * `+0.5` -> `+0.49` in grid_pixel_centres_2d_slim_from (x, non-square)   -> points.centres / points.indexes
+  * `+0.5` -> `+0.500005` in the same conversion (y, non-square)           -> points.* (near-edge points only)
+  * origin_x used for y in the scalar pixel_coordinates_2d_from            -> scalar.pixel_of_centre / _of_point / roundtrip
+  * central pixel W/2 instead of (W-1)/2 for even W >= 8, non-square       -> grid.*, scalar.*, contract grid_2d_slim_via_mask_from
+  * mask centre x converted with the y pixel scale (mask_2d_centres_from)  -> ctor.circular, anti-annular (+ contracts)
+  * anti-annular outer radius 1 % too large when centre_y != centre_x      -> ctor.circular_anti_annular + contract
+  * ellipse angle negated for angles > 180 deg                             -> ctor.elliptical / elliptical_annular + contracts
+  * annular mask measures y with the x pixel scale (anisotropic only)      -> ctor.circular_annular + contract
+  * 1-D central pixel floor((L-1)/2) for L > 6                             -> dim1.grid / dim1.uniform
+  Suite green, quick misses, thorough catches (documented limit of the quick tier's sample of near-edge points):
+  * `+0.5` -> `+0.5000001` (1e-7 pixel bias, non-square only)
+  Also caught by quick (but already killed by the repository's own suite): swapped pixel scales / origin_x for y /
+  conditional variants of it in central_scaled_coordinate_2d_from, `+0.49` for all shapes, even-centre variants in
+  central_pixel_coordinates_2d_from and mask_2d_centres_from, swapped scale in grid_pixels_2d_slim_from, `-0.5000001`
+  in grid_scaled_2d_slim_from, flat index with H instead of W, extent built from origin_y / the y shape for x, 1-D
+  origin sign, 1-D extent sign, ellipse angle sign, outer ellipse rotated by inner_phi.
 """
 import math
 
@@ -43,9 +60,9 @@ RULE = ("geom: a case is one generated geometry (shape, anisotropic pixel scales
         "five shape-based constructors; dim1: one 1-D mask. distinct = distinct materialised parameter tuples (+ mask "
         "bits); non-trivial = at least two pixels (geom, dim1) / the five masks are not all fully masked or all fully "
         "unmasked (ctor)")
-BOUNDS = {"quick": "2400 geometries with H,W in [1,12] (5 interior points per pixel, margin 1e-6 px), 2000 constructor "
+BOUNDS = {"quick": "2400 geometries with H,W in [1,12] (5 interior points per pixel, >= 1e-8 px from pixel boundaries), 2000 constructor "
                    "parameter sets x 5 constructors with H,W in [1,12], 400 1-D masks of length <= 12",
-          "thorough": "20000 geometries with H,W in [1,40] (6 interior points per pixel, margin 1e-8 px), 20000 constructor "
+          "thorough": "20000 geometries with H,W in [1,40] (6 interior points per pixel, >= 1e-8 px from pixel boundaries), 20000 constructor "
                       "parameter sets x 5 constructors with H,W in [1,40], 5000 1-D masks of length <= 40"}
 EXHAUSTIVE = {"quick": False, "thorough": False}
 ASSUMPTIONS = ["coordinates are compared with an absolute tolerance of 1e-9 pixel per axis (origin <= 100 pixel scales, so "
@@ -57,6 +74,7 @@ ASSUMPTIONS = ["coordinates are compared with an absolute tolerance of 1e-9 pixe
 QUICK_JOBS = 16
 
 BAND = 1e-9
+MARGIN = 1e-8        # closest approach of a generated point / radius to a boundary: 10x the tie band; rounding is < 1e-11
 _CTORS = ("circular", "circular_annular", "circular_anti_annular", "elliptical", "elliptical_annular")
 _CONTRACTS = ["contract:mask_2d_util.mask_2d_%s_from" % c for c in _CTORS] + ["contract:grid_2d_util.grid_2d_slim_via_mask_from"]
 MIN_MONITORS = {"*": dict({c: 1 for c in _CONTRACTS},
@@ -349,7 +367,7 @@ def geom_case(ctx, idx):
     H, W = gen_shape(rng, idx, ctx.tier)
     s, o, oc = gen_scales_origin(rng)
     m, fam = gen.random_mask(rng, H, W)
-    margin = 1e-6 if ctx.tier == "quick" else 1e-8
+    margin = MARGIN
     k = 3 if ctx.tier == "quick" else 4
     n = H * W
     wit = {"shape": (H, W), "pixel_scales": s, "origin": o}
@@ -494,7 +512,7 @@ def ctor_case(ctx, idx):
     rng = gen.rng_for(ctx.seed, NO, _KIND_NO["ctor"], idx)
     H, W = gen_shape(rng, idx, ctx.tier)
     s, o, oc = gen_scales_origin(rng)
-    margin = 1e-6 if ctx.tier == "quick" else 1e-8
+    margin = MARGIN
     hy, hx = H * s[0] / 2.0, W * s[1] / 2.0
     cc = rng.random()
     if cc < 0.2:
